@@ -21,7 +21,8 @@ EXTENDS LdapMsg, Json
 CONSTANTS MaxChoices,     \* bound on choice points for exhaustive alternative encodings
           AltMaxNodes,    \* messages with at most this many TLV nodes take part in the exhaustive enumeration
           EmitCanon, EmitAlt, Styles,
-          MiLo, MiHi      \* slice of the message pool handled by this TLC process
+          MiLo, MiHi,     \* slice of the message pool handled by this TLC process
+          EmitCorrupt, CorruptMaxLen   \* single-octet corruptions of the canonical encodings of messages up to this length
 
 \* alternatives tables for LdapMsg's encoder (a cfg substitutes e.g. LenFormMap <- Len2)
 Len2 == <<0, 3>>      Len5 == <<0, 1, 2, 3, 4>>
@@ -190,7 +191,34 @@ Style == /\ phase = "start" /\ Styles
          /\ phase' = "styled"
          /\ UNCHANGED <<mi, xd>>
 
-Next == Canon \/ Choose \/ Style
+\* ---- single-octet corruptions (C05, C06) ----------------------------------------------------------------------
+\* Every octet of a canonical encoding is an identifier octet, a length octet or a content octet of some TLV node;
+\* replacing it by each value of CorruptVals (boundary lengths, flipped class / constructed bits, neighbours),
+\* deleting it or inserting an octet before it yields every single-node corruption of the kinds C05 names: length
+\* +-1 / zero / overrunning / indefinite (0x80) / long form (0x81, 0x82, 0x84), tag class / number / form changes,
+\* content changes, truncation.  Emitted with what the independent framer makes of the octets.
+XorBit(o, b) == IF (o \div b) % 2 = 1 THEN o - b ELSE o + b
+CorruptVals(o) == ({0, 1, 2, 4, 5, 48, 127, 128, 129, 130, 132, 160, 255, (o + 1) % 256, (o + 255) % 256, XorBit(o, 32), XorBit(o, 64), XorBit(o, 128)}) \ {o}
+Corrupted(b, pos, kind, v) ==
+    CASE kind = "set" -> [b EXCEPT ![pos] = v]
+      [] kind = "del" -> SubSeq(b, 1, pos - 1) \o SubSeq(b, pos + 1, Len(b))
+      [] kind = "ins" -> SubSeq(b, 1, pos - 1) \o <<v>> \o SubSeq(b, pos, Len(b))
+EmitCorruption(pos, kind, v) ==
+    LET c == Corrupted(Enc(Msgs[mi]), pos, kind, v)
+        f == Frame(c, 1, 0)
+        d == IF f.n = 1 /\ f.why = "end" THEN DecLiberal(c) ELSE [ok |-> FALSE]
+    IN  PrintT(<<"CORRUPT", ToJson([mi |-> mi, op |-> Msgs[mi].op, id |-> Msgs[mi].id, pos |-> pos, kind |-> kind, v |-> v, bytes |-> c,
+                                    units |-> f.n, why |-> f.why, tail |-> Len(c) + 1 - f.tail,
+                                    stillValid |-> d.ok, sameValue |-> d.ok /\ d.m = Msgs[mi]])>>)
+Corrupt == /\ phase = "start" /\ EmitCorrupt /\ ~xd /\ Len(Enc(Msgs[mi])) <= CorruptMaxLen
+           /\ \E pos \in 1..Len(Enc(Msgs[mi])) :
+                 \/ \E v \in CorruptVals(Enc(Msgs[mi])[pos]) : ch' = <<pos, 0, v>> /\ EmitCorruption(pos, "set", v)
+                 \/ ch' = <<pos, 1, 0>> /\ EmitCorruption(pos, "del", 0)
+                 \/ \E v \in {0, 48, 128, 255} : ch' = <<pos, 2, v>> /\ EmitCorruption(pos, "ins", v)
+           /\ phase' = "corrupted"
+           /\ UNCHANGED <<mi, xd>>
+
+Next == Canon \/ Choose \/ Style \/ Corrupt
 Spec == Init /\ [][Next]_vars
 
 \* ---- the oracle's own theorems -----------------------------------------------------------------
@@ -209,4 +237,9 @@ StrictRejectsFreedoms ==
      /\ (ch[2] # 0 \/ ch[3] # 0 \/ xd)
      /\ EncStyleNode(Tree(Msgs[mi], xd), 0, ch[2], ch[3]) # Enc(Msgs[mi]))
     => ~DecStrict(EncStyleNode(Tree(Msgs[mi], xd), ch[1], ch[2], ch[3])).ok
+\* the independent framer on corrupted octets: complete units plus tail account for every octet
+FrameAccountsForAll == phase = "corrupted" =>
+    LET c == Corrupted(Enc(Msgs[mi]), ch[1], CASE ch[2] = 0 -> "set" [] ch[2] = 1 -> "del" [] ch[2] = 2 -> "ins", ch[3])
+        f == Frame(c, 1, 0)
+    IN  f.tail >= 1 /\ f.tail <= Len(c) + 1 /\ (f.why = "end" <=> f.tail = Len(c) + 1)
 =============================================================================
